@@ -2,7 +2,7 @@
    strconv.Atoi.  Definitions only; proofs are in BaseProofs.v. *)
 From Coq Require Import List String Ascii Bool Arith ZArith.
 Import ListNotations.
-Open Scope string_scope.
+Local Open Scope string_scope.
 
 Notation rule := (list string) (only parsing).
 
